@@ -90,6 +90,23 @@ fn programs(n: usize) -> Vec<(&'static str, String, f64)> {
                         (0..n).map(|i| format!("${{{}}}", i)).collect::<Vec<_>>().join(" ")),
                 7.0 * 1e6 + sum + nn));
     }
+    // spread arguments: the argument count is only known at run time and must not be narrowed on the way
+    let mk = format!("let xs = []; for (let i = 0; i < {}; i++) {{ xs.push(i); }}", n);
+    v.push(("spread_call_arguments",
+            format!("let keep = 7; {} function f(...a) {{ let s = 0; for (let i = 0; i < a.length; i++) {{ s += a[i]; }} return s + a.length; }} let r = f(...xs); keep * 1000000 + r", mk),
+            7.0 * 1e6 + sum + nn));
+    v.push(("spread_call_arguments_mixed",
+            format!("let keep = 7; {} function f(...a) {{ let s = 0; for (let i = 0; i < a.length; i++) {{ s += a[i]; }} return s + a.length; }} let r = f(1, ...xs, 2); keep * 1000000 + r", mk),
+            7.0 * 1e6 + sum + 3.0 + nn + 2.0));
+    v.push(("spread_new_arguments",
+            format!("let keep = 7; {} function C() {{ this.v = arguments.length * 2 + (arguments.length > 0 ? arguments[arguments.length - 1] : 0); }} let r = new C(...xs).v; keep * 1000000 + r", mk),
+            7.0 * 1e6 + nn * 2.0 + if n > 0 { nn - 1.0 } else { 0.0 }));
+    v.push(("spread_native_call",
+            format!("let keep = 7; {} let r = Math.max(-1, ...xs); keep * 1000000 + r + 1", mk),
+            7.0 * 1e6 + nn));
+    v.push(("spread_method_call",
+            format!("let keep = 7; {} let o = {{ m(...a) {{ return a.length; }} }}; let r = o.m(...xs); keep * 1000000 + r", mk),
+            7.0 * 1e6 + nn));
     // limits are per construct, never cumulative: long sequences of individually small statements
     v.push(("call_sequence",
             format!("let keep = 7; function f(a, b) {{ return a + b; }} let s = 0; {} keep * 1000000 + s",
@@ -219,6 +236,22 @@ fn verif_side_c10() {
                     Outcome::Panic(_) => "panic".to_string(),
                 };
                 println!("VERIF-SIDE-FAIL obligation=side/C10/{} sig={} n={} got={} want={} (a sequence of small statements must be accepted)", family, sig, n, &g[..g.len().min(300)], want);
+            }
+        }
+    }
+    for &n in &[4096usize, 65535, 65536, 70000] {
+        for (family, src, want) in programs(n).into_iter().filter(|p| p.0.starts_with("spread_")) {
+            cases += 1;
+            let got = run(&src);
+            let ok = match &got {
+                Outcome::Num(v) => *v == want,
+                Outcome::Err(e) => e.contains("Too many") || e.contains("too many") || e.contains("limit") || e.contains("Maximum call stack"),
+                _ => false,
+            };
+            if !ok && fails < 40 {
+                fails += 1;
+                let g = format!("{:?}", got);
+                println!("VERIF-SIDE-FAIL obligation=side/C10/{} n={} got={} want={} (or an explicit limit error)", family, n, &g[..g.len().min(300)], want);
             }
         }
     }
